@@ -9,7 +9,7 @@
     counting). *)
 From Coq Require Import Permutation.
 From TD Require Import Base.Prelude Spec.Grid Spec.Inv Model.Owned Model.Hist
-  Spec.HistSpec Proofs.InsertRow Proofs.RemoveRow Proofs.Ledger Proofs.LedgerAll.
+  Spec.HistSpec Proofs.InsertRow Proofs.RemoveRow Proofs.Ledger Proofs.LedgerAll Proofs.LedgerAny.
 
 Theorem C05_insert_row_accepted :
   forall (A : Type) dbg cap spare (t : toodee A) idx xs,
@@ -75,6 +75,30 @@ Theorem C05_every_history :
   /\ total_leaked l = 0.
 Proof. exact hrun_ledger. Qed.
 Print Assumptions C05_every_history.
+
+(** EVERY step, faults and leaks included - iterators that lie about their length, end
+    early or late or panic at any call, drains dropped or leaked (mem::forget) after any
+    consumption, destructors that panic: owned-after + dropped + leaked is a permutation of
+    owned-before + supplied.  So no element is ever dropped twice, or dropped while still
+    reachable; an element escapes its destructor only by being leaked, and then it is in
+    the leak set the model names *)
+Theorem C05_every_step_with_faults :
+  forall cf o h h' ob,
+  Inv (h_td h) -> (N.of_nat (length (data (h_td h))) < W)%N ->
+  hstep cf h o = Ok (h', ob) ->
+  Permutation (data (h_td h') ++ ob_dropped ob ++ ob_leaked ob) (data (h_td h) ++ supplied cf h o).
+Proof. exact hstep_ledger_all. Qed.
+Print Assumptions C05_every_step_with_faults.
+
+Theorem C05_every_history_with_faults :
+  forall cf ops h l,
+  Inv (h_td h) -> (N.of_nat (length (data (h_td h))) < W)%N ->
+  hrun cf h ops = Ok l ->
+  Forall (fun p => (N.of_nat (length (data (h_td (fst p)))) < W)%N) l ->
+  Permutation (data (h_td (final_state h l)) ++ dropped_all l ++ leaked_all l)
+              (data (h_td h) ++ supplied_all cf h ops l).
+Proof. exact hrun_ledger_all. Qed.
+Print Assumptions C05_every_history_with_faults.
 
 Example C05_example :
   remove_row (mkTD [1; 2; 3; 4; 5; 6]%N 3 2) 1 [DFront] DropIt
